@@ -671,7 +671,8 @@ def compare_core(ctx, fl, f, ans, where):
         return 0
     wf, eae, nblocks, items = ans.split(" ")
     items = [] if items == "-" else [x.split(":") for x in items.split(";")]
-    exp = f["created"]
+    names = f["names"]
+    exp = [(int(it[0]), it[1], names[int(it[2])]) for it in items]   # statements the model created
     real = fl["created"]
     if wf != "1" or eae != "1":
         ctx.corr_break("cfg:side-conditions", where, "well-formed program, edges leave from block ends",
